@@ -32,4 +32,35 @@ theorem picked_inputs_valid (s : State) (hinv : invB s = true) (p : Params) (mx 
     simp only [seedFiles, hz, if_false]
     exact seed_single_convex _ hwf f hmem
 
+/-- the seek-triggered branch yields valid inputs for a recorded file that is in its level -/
+theorem seek_inputs_valid (s : State) (hinv : invB s = true) (mx : Nat) (size : Nat → Nat)
+    {lvl : Nat} {f : File} (hmem : f ∈ s.levels.getD lvl []) {l' : Nat} {i0 i1 : List File}
+    (h : pickSeek mx size s.levels lvl f = .picked l' i0 i1) :
+    l' = lvl ∧ validInputs s lvl (i0.map File.num) (i1.map File.num) = true := by
+  unfold pickSeek at h
+  split at h
+  · cases h
+  · rename_i hl
+    simp only [Outcome.picked.injEq] at h
+    obtain ⟨rfl, e0, e1⟩ := h
+    refine ⟨rfl, ?_⟩
+    have hlev : lvl + 1 < 7 := by simp [numLevels] at hl; omega
+    have inv := (invB_iff s).mp hinv
+    have hwf : ∀ g ∈ s.levels.getD lvl [], kLt g.largest g.smallest = false :=
+      fun g hg => (inv.files lvl g hg).wf
+    have hne : seedFiles (s.levels.getD lvl []) lvl f ≠ [] := by
+      intro e
+      have := seedFiles_mem (lvl := lvl) hmem (fun _ => hwf f hmem)
+      rw [e] at this
+      cases this
+    rw [← e0, ← e1]
+    refine C07_selected_inputs_are_valid s hinv lvl hlev _ hne (seedFiles_sublist hmem) ?_ ?_ size mx
+    · intro hz
+      subst hz
+      simp only [seedFiles, if_true]
+      exact (seed_level0_closed _ _ _).newer
+    · intro hz
+      simp only [seedFiles, hz, if_false]
+      exact seed_single_convex _ hwf f hmem
+
 end Rain.Score.Lemmas
